@@ -244,6 +244,13 @@ Definition mon0 (m0 : mst) (o : op) (outs : list obs) : mst * verdict :=
         | _ => mon_tick m g outs
         end
       else (m, shape (match outs with [NotRunnable] => true | _ => false end))
+  | First _ _ =>
+      (* overlapped first use of fresh entities: every one runs afterwards, and stays stopped once stopped *)
+      match outs with
+      | [Firsted a b] =>
+          (m, (if N.eqb a 0 then [] else [CL_RUNNING]) ++ (if N.eqb b 0 then [] else [CL_SILENCE]))
+      | _ => (m, [CL_SHAPE])
+      end
   | Burst _ k n =>
       (* k starts in a row leave exactly one stream: one stream refreshes during the free run, at the rate of
          one stream, with strictly increasing counters, each refresh notified once to the subscribed peer *)
